@@ -147,6 +147,9 @@ SPECS = [
     dict(name="smc_loop_body", py="samplers/smc/base.py:SMCSampler.sample", mode="smcloop", part="body"),
     dict(name="smc_epilogue", py="samplers/smc/base.py:SMCSampler.sample", mode="smcloop", part="epilogue"),
     dict(name="smc_driver", py="samplers/smc/base.py:SMCSampler.sample", mode="smcloop", part="driver"),
+    # the dictionary <-> HDF5 group codec (eighth vocabulary: codec2lean.py)
+    dict(name="save_flattened", py="utils.py:recursively_save_to_h5_file", mode="codec", part="save"),
+    dict(name="load_flattened", py="utils.py:load_from_h5_file", mode="codec", part="load"),
     # which field is built from which, row-indexed how (seventh vocabulary: rows2lean.py)
     dict(name="getitem_base", py="samples.py:BaseSamples.__getitem__", mode="rows", part="getitem_base"),
     dict(name="getitem_samples", py="samples.py:Samples.__getitem__", mode="rows", part="getitem_samples"),
@@ -187,6 +190,7 @@ GROUPS = {
     "SrcFlows": ([], ["zuko_log_prob", "zuko_sample_and_log_prob", "flowjax_log_prob", "flowjax_sample_and_log_prob"]),
     "SrcDump": ([], ["dump_pickle_to_hdf"]),
     "SrcLoop": ([], ["should_checkpoint", "loop_exit", "init_min_step", "resume_loop_flag", "final_evidence"]),
+    "SrcCodec": (["CodecOps"], ["save_flattened", "load_flattened"]),
     "SrcRows": (["RowOps"], ["getitem_base", "getitem_samples", "getitem_smc", "resample_return", "to_standard_samples"]),
     "SrcEval": (["EvalOps"], ["sampler_log_likelihood", "draw_initial_samples", "importance_eval", "mcmc_target_eval", "smc_target_eval",
                               "minipcn_mutate_eval", "emcee_mutate_eval"]),
